@@ -8,7 +8,7 @@ From Coq Require Import ZArith List Ascii Bool NArith Lia.
 From Cspuz Require Import Lib.PyErr Codec.Comb Codec.CombWf Codec.CombBasics Codec.CombLeaf Codec.CombRoundTrip
   Codec.Legacy Codec.Url Codec.UrlProofs Codec.Yajilin Codec.Puzzles Codec.SerChars Codec.PuzzleProofs
   Codec.TotalModel Codec.TotalLeaf Codec.TotalRooms Codec.Total Codec.TotalDims
-  Codec.TotalReencLeaf Codec.TotalReenc Codec.TotalReencRooms Codec.TotalReencCodecs Codec.TotalReencYajilin Gen.Codecs.
+  Codec.TotalReencModel Codec.TotalReencLeaf Codec.TotalReenc Codec.TotalReencRooms Codec.TotalReencCodecs Codec.TotalReencYajilin Gen.Codecs.
 Import ListNotations.
 Local Open Scope Z_scope.
 
@@ -38,18 +38,21 @@ Qed.
 
 (* Grid codecs: any declared size *)
 Theorem grid_reencodable_any_size cu c1 h w s p : 0 <= h -> 0 <= w ->
-  wf (Grid c1 None) = true -> dec_ok (Grid c1 None) = true -> reenc_ok (Grid c1 None) = true ->
+  wf (Grid c1 None) = true -> tupl_single (Grid c1 None) = true -> dec_ok (Grid c1 None) = true ->
+  reenc_ok (Grid c1 None) = true ->
   deserialize_problem_cu cu (Grid c1 None) s h w = Ok (Some p) ->
   exists t, serialize_problem_cu cu (Grid c1 None) p h w = Ok t /\
             deserialize_problem_cu cu (Grid c1 None) t h w = Ok (Some p).
 Proof.
-  intros Hh Hw Hwf Hok Hre Hd.
+  intros Hh Hw Hwf Hts Hok Hre Hd.
   destruct (Z.eq_dec (h * w) 0) as [Hz|Hnz].
-  - unfold deserialize_problem_cu in Hd.
-    rewrite (grid_zero_de (cu_env cu h w) c1 s Hz) in Hd. inversion Hd; subst p.
-    exists []. unfold serialize_problem_cu, deserialize_problem_cu.
-    rewrite (grid_zero_ser (cu_env cu h w) c1 Hz), (grid_zero_de (cu_env cu h w) c1 [] Hz). auto.
-  - apply de_reencodable_cu_lemma; auto; nia.
+  - pose proof (grid_zero_de (cu_env cu h w) c1 s Hz) as D1.
+    pose proof (grid_zero_de (cu_env cu h w) c1 [] Hz) as D2.
+    pose proof (grid_zero_ser (cu_env cu h w) c1 Hz) as S1.
+    cbn [height width cu_env] in D1, D2, S1.
+    unfold deserialize_problem_cu in Hd. rewrite D1 in Hd. inversion Hd; subst p.
+    exists []. unfold serialize_problem_cu, deserialize_problem_cu. rewrite S1, D2. auto.
+  - apply (de_reencodable_cu_lemma cu (Grid c1 None) h w s p); auto; nia.
 Qed.
 
 (* the Rooms decoders return a value only on boards with cells *)
@@ -72,19 +75,19 @@ Qed.
 
 Theorem rooms_reencodable_any_size cu c h w s p :
   (exists skip allow, c = Rooms skip allow) \/ (exists vc skip allow, c = ValuedRooms vc skip allow) ->
-  wf c = true -> dec_ok c = true -> reenc_ok c = true ->
+  wf c = true -> tupl_single c = true -> dec_ok c = true -> reenc_ok c = true ->
   deserialize_problem_cu cu c s h w = Ok (Some p) ->
   exists t, serialize_problem_cu cu c p h w = Ok t /\ deserialize_problem_cu cu c t h w = Ok (Some p).
 Proof.
-  intros Hc Hwf Hok Hre Hd.
+  intros Hc Hwf Hts Hok Hre Hd.
   assert (Hpos : 1 <= h /\ 1 <= w).
   { unfold deserialize_problem_cu in Hd.
     destruct (de (cu_env cu h w) c s) as [[[n l]|]|] eqn:E; try discriminate.
     destruct Hc as [(skip & allow & ->)|(vc & skip & allow & ->)].
     - apply rooms_value_pos in E. exact E.
     - apply vrooms_value_pos in E. exact E. }
-  destruct Hpos. apply de_reencodable_cu_lemma; auto;
-    destruct Hc as [(skip & allow & ->)|(vc & skip & allow & ->)]; reflexivity.
+  destruct Hpos. apply (de_reencodable_cu_lemma cu c h w s p); auto.
+  destruct Hc as [(skip & allow & ->)|(vc & skip & allow & ->)]; reflexivity.
 Qed.
 
 (* ------------------------------------------------------------------ URL level *)
@@ -142,10 +145,17 @@ Proof.
   repeat split; try reflexivity; try discriminate; vm_compute; repeat constructor.
 Qed.
 
+Lemma side_conditions_inv c : side_conditions c = true ->
+  wf c = true /\ tupl_single c = true /\ dec_ok c = true /\ single c = true /\ reenc_ok c = true.
+Proof.
+  unfold side_conditions. generalize (wf c), (tupl_single c), (dec_ok c), (single c), (reenc_ok c).
+  intros [] [] [] [] []; simpl; intros H; try discriminate; auto.
+Qed.
+
 Lemma grid_url c1 sw dw : sw_comb sw = Grid c1 None -> wrappers_consistent sw dw ->
   side_conditions (Grid c1 None) = true -> nl_free (Grid c1 None) = true -> url_reencodable no_custom sw dw.
 Proof.
-  intros Hc Hcons Hsc Hnl url v. unfold side_conditions in Hsc. repeat (apply andb_true_iff in Hsc as [Hsc ?]).
+  intros Hc Hcons Hsc Hnl url v. apply side_conditions_inv in Hsc as (S1 & S2 & S3 & S4 & S5).
   apply url_reencodable_gen; auto.
   - rewrite Hc. exact Hnl.
   - intros h w. apply no_custom_cu_good.
@@ -156,7 +166,7 @@ Lemma rooms_url c sw dw : sw_comb sw = c ->
   (exists skip allow, c = Rooms skip allow) \/ (exists vc skip allow, c = ValuedRooms vc skip allow) ->
   wrappers_consistent sw dw -> side_conditions c = true -> nl_free c = true -> url_reencodable no_custom sw dw.
 Proof.
-  intros Hc Hshape Hcons Hsc Hnl url v. unfold side_conditions in Hsc. repeat (apply andb_true_iff in Hsc as [Hsc ?]).
+  intros Hc Hshape Hcons Hsc Hnl url v. apply side_conditions_inv in Hsc as (S1 & S2 & S3 & S4 & S5).
   apply url_reencodable_gen; auto.
   - rewrite Hc. exact Hnl.
   - intros h w. apply no_custom_cu_good.
@@ -183,10 +193,10 @@ Proof.
   split; [eapply grid_url; [reflexivity|exact W4|vm_compute; reflexivity|vm_compute; reflexivity]|].
   split; [eapply grid_url; [reflexivity|exact W5|vm_compute; reflexivity|vm_compute; reflexivity]|].
   split.
-  { intros url v. apply url_reencodable_gen; auto.
-    - reflexivity.
-    - intros h w. apply yajilin_cu_good.
-    - intros h w s p Hh Hw. apply yajilin_reencodable_lemma; auto. }
+  { intros url v.
+    apply (url_reencodable_gen yajilin_custom serialize_yajilin_w deserialize_yajilin_w W6 eq_refl
+             (fun h w => yajilin_cu_good h w)).
+    intros h w s p Hh Hw. apply yajilin_reencodable_lemma; auto. }
   split; [eapply rooms_url; [reflexivity|right; do 3 eexists; reflexivity|exact W7|vm_compute; reflexivity|vm_compute; reflexivity]|].
   split; [eapply rooms_url; [reflexivity|left; do 2 eexists; reflexivity|exact W8|vm_compute; reflexivity|vm_compute; reflexivity]|].
   eapply rooms_url; [reflexivity|left; do 2 eexists; reflexivity|exact W9|vm_compute; reflexivity|vm_compute; reflexivity].
